@@ -131,7 +131,8 @@ def main(argv):
             continue
         unit_filter = gcfg.get('units')
         kinds = gcfg.get('kinds')
-        names = [u['name'] for u in r['units'] if not unit_filter or u['name'] in unit_filter]
+        excl = set(gcfg.get('exclude_units', []))
+        names = [u['name'] for u in r['units'] if (not unit_filter or u['name'] in unit_filter) and u['name'] not in excl]
         # obligations: measured from the AIR log, per function belonging to the selected units
         failed_units = set()
         for e in r['errors']:
